@@ -235,7 +235,25 @@ func (e *executor) processInput(workflow *Workflow) (schema.Scope, error) {
 		return nil, fmt.Errorf("bug: unserialized input is not a scope")
 	}
 	typedInput.ApplySelf()
+	if err := validateDefaults(typedInput); err != nil {
+		return nil, &ErrInvalidWorkflow{fmt.Errorf("invalid workflow input section (%w)", err)}
+	}
 	return typedInput, nil
+}
+
+// validateDefaults makes sure that the default values in the scope can be decoded. The SDK decodes them on first use and
+// panics when it cannot, which would otherwise happen while the workflow is running.
+func validateDefaults(scope schema.Scope) (err error) {
+	defer func() {
+		if r := recover(); r != nil {
+			err = fmt.Errorf("%v", r)
+		}
+	}()
+	for _, object := range scope.Objects() {
+		// A copy, so that the defaults are not cached in the object of the scope.
+		schema.NewObjectSchema(object.ID(), object.Properties()).GetDefaults()
+	}
+	return nil
 }
 
 func (e *executor) processSteps(
